@@ -58,6 +58,8 @@ OPS_KINDS = list(corpus_ops.ORDER)
 PENDING_TRIAGE = [
     # Every defect a kind / style was parked for has been repaired in /repo (DESIGN.md section 7: P1-P23, R1, R2); each kind left
     # this list after every corpus-using check was green with it.  Currently nothing is parked.
+    # (statevar:npu_ew_early / npu_ew_mid / npu_ew_late were parked for K3 - an NPU elementwise operator writing its output over the
+    #  variable tensor it reads, harness/repro/c12_inplace_over_variable_tensor.py - until live_range._get_ifm_to_fuse was repaired.)
 ]
 corpus_ops.PENDING.update(k for k in PENDING_TRIAGE if ":" in k)
 corpus_shapes.PENDING.update(k for k in PENDING_TRIAGE if ":" in k)
@@ -624,7 +626,15 @@ def shape_families():
     VERIF_CORPUS_SHAPES=0, which exists to measure what these families cost)"""
     if LEGACY_ONLY or os.environ.get("VERIF_CORPUS_SHAPES") == "0":
         return []
-    return [f for f in SHAPE_FAMILIES if f not in PENDING_TRIAGE and corpus_shapes.live_styles(f)]
+    return [f for f in SHAPE_FAMILIES if f not in PENDING_TRIAGE and corpus_shapes.live_styles(f) and f not in corpus_shapes.OPT_IN]
+
+
+def opt_in_shape_families():
+    """graph-shape families that only the checks naming them compile (corpus_shapes.OPT_IN): they take no part in the
+    rotation of shape_jobs() / shape_sample() over "all" families, so adding one leaves every existing draw as it was"""
+    if LEGACY_ONLY or os.environ.get("VERIF_CORPUS_SHAPES") == "0":
+        return []
+    return [f for f in SHAPE_FAMILIES if f in corpus_shapes.OPT_IN and f not in PENDING_TRIAGE and corpus_shapes.live_styles(f)]
 
 
 def shape_jobs(seed, tier="quick", families=None, extra=(), per=1, thorough=40, accel=None):
@@ -634,7 +644,8 @@ def shape_jobs(seed, tier="quick", families=None, extra=(), per=1, thorough=40, 
     seed: with c networks of a family per run, ceil(len(styles) / c) consecutive seeds cover every style.  Network and
     configuration of an entry depend only on (seed, family, number of entries of that family, position)."""
     live = shape_families()
-    names = [f for f in (list(families) if families is not None else live) + list(extra) if f in live]
+    named = live + opt_in_shape_families()          # opt-in families: only when named in `families` / `extra`
+    names = [f for f in (list(families) if families is not None else live) + list(extra) if f in named]
     k = per if tier == "quick" else thorough
     count = {f: names.count(f) * k for f in names}
     out = []
